@@ -18,7 +18,7 @@ Headline statements
   (developer hooks and the function body are the only, explicitly named, sources).
 * `C04_*_terminates`: if every component terminates, so does the entry point
   (`C04_*_diverges_only_with_component` is the contrapositive reading).
-* `C04_no_body_on_error`, `C04_no_instance_on_error`: when parsing fails the call *is* that failure —
+* `seq_no_body_on_error`, `seq_no_instance_on_error`: when parsing fails the call *is* that failure —
   the body / attribute assignment / post-init are never sequenced.
 * `C04_ts_*`: the timestamp loop of `to_datetime` terminates on every finite number and diverges
   exactly on ±inf; with the finiteness guard it always terminates.
@@ -30,15 +30,20 @@ variable {V : Type}
 
 /-! ## Rule.parse -/
 
-theorem safe_getItem_of_indexable (W : World V) (v : V) (i : Nat) (hi : W.indexable v = true)
-    (hlt : i < (W.items v).length) : Safe (getItem W v i) := by
-  unfold getItem
-  simp only [hi, Bool.not_true, Bool.false_eq_true, if_false]
-  rw [List.getElem?_eq_getElem hlt]
-  exact safe_pure _
+theorem safe_readItemsOf (W : World V) (hw : ∀ s, Safe (W.warn s)) (L : Legacy) (hL : L.rawIteration = false) (o : Opts) (v : V) :
+    Safe (readItemsOf W L o v) := by
+  unfold readItemsOf
+  simp only [hL]
+  safe_auto
 
-theorem safe_seqLoop (W : World V) (L : Legacy) (hL : L.seqIndex = false) (o : Opts) (t : Ty) (v : V)
-    (xs : List V) : ∀ i acc, Safe (seqLoop W L o t v xs i acc) := by
+theorem safe_readPairsOf (W : World V) (hw : ∀ s, Safe (W.warn s)) (L : Legacy) (hL : L.rawIteration = false) (o : Opts) (v : V) :
+    Safe (readPairsOf W L o v) := by
+  unfold readPairsOf
+  simp only [hL]
+  safe_auto
+
+theorem safe_seqLoop (W : World V) (hw : ∀ s, Safe (W.warn s)) (L : Legacy) (hL : L.seqIndex = false) (o : Opts) (t : Ty) (v : V)
+    (all : List V) (xs : List V) : ∀ i acc, Safe (seqLoop W L o t v all xs i acc) := by
   induction xs with
   | nil => intro i acc; exact safe_pure _
   | cons x xs ih =>
@@ -53,7 +58,7 @@ theorem safe_exceedLoop (o : Opts) (is : List Nat) : Safe (exceedLoop o is) := b
   | nil => exact safe_pure _
   | cons i is ih => unfold exceedLoop; safe_auto
 
-theorem safe_tupleLoop (W : World V) (L : Legacy) (hL : L.tupleMissing = false) (o : Opts) (v : V)
+theorem safe_tupleLoop (W : World V) (hw : ∀ s, Safe (W.warn s)) (L : Legacy) (hL : L.tupleMissing = false) (o : Opts) (v : List V)
     (ts : List Ty) : ∀ i acc, Safe (tupleLoop W L o v ts i acc) := by
   induction ts with
   | nil => intro i acc; exact safe_pure _
@@ -64,7 +69,7 @@ theorem safe_tupleLoop (W : World V) (L : Legacy) (hL : L.tupleMissing = false) 
     safe_auto
     all_goals first | exact ih _ _ | (simp at *)
 
-theorem safe_tupleExtra (W : World V) (o : Opts) (t : Ty) (xs : List V) :
+theorem safe_tupleExtra (W : World V) (hw : ∀ s, Safe (W.warn s)) (o : Opts) (t : Ty) (xs : List V) :
     ∀ i acc, Safe (tupleExtra W o t xs i acc) := by
   induction xs with
   | nil => intro i acc; exact safe_pure _
@@ -74,34 +79,35 @@ theorem safe_tupleExtra (W : World V) (o : Opts) (t : Ty) (xs : List V) :
     safe_auto
     all_goals exact ih _ _
 
-theorem safe_tupleArgs (W : World V) (L : Legacy) (hL : L.tupleMissing = false) (o : Opts) (ts : List Ty)
-    (v : V) : Safe (tupleArgs W L o ts v) := by
+theorem safe_tupleArgs (W : World V) (hw : ∀ s, Safe (W.warn s)) (L : Legacy) (hL : L.tupleMissing = false) (hR : L.rawIteration = false)
+    (o : Opts) (ts : List Ty) (v : V) : Safe (tupleArgs W L o ts v) := by
   unfold tupleArgs
-  have h1 := safe_tupleLoop W L hL o v ts
-  have h2 := safe_tupleExtra W o
+  have h0 := safe_readItemsOf W hw L hR o v
+  have h1 := fun xs => safe_tupleLoop W hw L hL o xs ts
+  have h2 := safe_tupleExtra W hw o
   have h3 := safe_exceedLoop o
   safe_auto
-  all_goals first | exact h1 _ _ | exact h2 _ _ _ _ | exact h3 _
+  all_goals first | exact h1 _ _ _ | exact h2 _ _ _ _ | exact h3 _
 
-theorem safe_renderKey (W : World V) (L : Legacy) (hK : L.mapKeyStr = false) (k : V) : Safe (renderKey W L k) := by
+theorem safe_renderKey (W : World V) (hw : ∀ s, Safe (W.warn s)) (L : Legacy) (hK : L.mapKeyStr = false) (k : V) : Safe (renderKey W L k) := by
   unfold renderKey
   simp only [hK]
   safe_auto
 
-theorem safe_mapLoop (W : World V) (L : Legacy) (hL : L.mapInsert = false) (hK : L.mapKeyStr = false) (o : Opts) (kt : Ty)
+theorem safe_mapLoop (W : World V) (hw : ∀ s, Safe (W.warn s)) (L : Legacy) (hL : L.mapInsert = false) (hK : L.mapKeyStr = false) (o : Opts) (kt : Ty)
     (vt : Option Ty) (kvs : List (V × V)) : ∀ i acc, Safe (mapLoop W L o kt vt kvs i acc) := by
   induction kvs with
   | nil => intro i acc; exact safe_pure _
   | cons kv rest ih =>
     intro i acc
     obtain ⟨k, x⟩ := kv
-    have hr := safe_renderKey W L hK k
+    have hr := safe_renderKey W hw L hK k
     unfold mapLoop
     simp only [hL]
     safe_auto
     all_goals first | exact ih _ _ | (simp at *)
 
-theorem safe_containsCount (W : World V) (L : Legacy) (hL : L.containsNarrow = false) (t : Ty)
+theorem safe_containsCount (W : World V) (hw : ∀ s, Safe (W.warn s)) (L : Legacy) (hL : L.containsNarrow = false) (t : Ty)
     (xs : List V) : ∀ i c, Safe (containsCount W L t xs i c) := by
   induction xs with
   | nil => intro i c; exact safe_pure _
@@ -112,14 +118,15 @@ theorem safe_containsCount (W : World V) (L : Legacy) (hL : L.containsNarrow = f
     safe_auto
     all_goals first | exact ih _ _ | (simp at *)
 
-theorem safe_parseContains (W : World V) (L : Legacy) (hL : L.containsNarrow = false) (o : Opts) (t : Ty)
-    (a b : Option Nat) (v : V) : Safe (parseContains W L o t a b v) := by
+theorem safe_parseContains (W : World V) (hw : ∀ s, Safe (W.warn s)) (L : Legacy) (hL : L.containsNarrow = false) (hR : L.rawIteration = false)
+    (o : Opts) (t : Ty) (a b : Option Nat) (v : V) : Safe (parseContains W L o t a b v) := by
   unfold parseContains
-  have h := safe_containsCount W L hL t
+  have h0 := safe_readItemsOf W hw L hR o v
+  have h := safe_containsCount W hw L hL t
   safe_auto
   all_goals exact h _ _ _
 
-theorem safe_validatorsLoop (W : World V) (o : Opts) (ks : List Nat) : ∀ v, Safe (validatorsLoop W o ks v) := by
+theorem safe_validatorsLoop (W : World V) (hw : ∀ s, Safe (W.warn s)) (o : Opts) (ks : List Nat) : ∀ v, Safe (validatorsLoop W o ks v) := by
   induction ks with
   | nil => intro v; exact safe_pure _
   | cons k ks ih =>
@@ -138,53 +145,55 @@ theorem safe_validatorsLoop (W : World V) (o : Opts) (ks : List Nat) : ∀ v, Sa
 
 /-- the flags that matter inside `Rule.parse` -/
 def Legacy.ruleFixed (L : Legacy) : Bool :=
-  !L.seqIndex && !L.tupleMissing && !L.rewrap && !L.mapInsert && !L.containsNarrow && !L.mapKeyStr
+  !L.seqIndex && !L.tupleMissing && !L.rewrap && !L.mapInsert && !L.containsNarrow && !L.mapKeyStr && !L.rawIteration
 
-theorem safe_argsParse (W : World V) (L : Legacy) (hL : L.ruleFixed = true) (o : Opts) (R : RuleDecl)
+theorem safe_argsParse (W : World V) (hw : ∀ s, Safe (W.warn s)) (L : Legacy) (hL : L.ruleFixed = true) (o : Opts) (R : RuleDecl)
     (v : V) : Safe (argsParse W L o R v) := by
   simp [Legacy.ruleFixed] at hL
-  obtain ⟨⟨⟨⟨⟨h1, h2⟩, h3⟩, h4⟩, _⟩, h6⟩ := hL
+  obtain ⟨⟨⟨⟨⟨⟨h1, h2⟩, h3⟩, h4⟩, _⟩, h6⟩, h7⟩ := hL
   unfold argsParse
-  have hs := safe_seqLoop W L h1 o
-  have ht := safe_tupleArgs W L h2 o
-  have hm := safe_mapLoop W L h4 h6 o
+  have hri := safe_readItemsOf W hw L h7 o
+  have hrp := safe_readPairsOf W hw L h7 o
+  have hs := safe_seqLoop W hw L h1 o
+  have ht := safe_tupleArgs W hw L h2 h7 o
+  have hm := safe_mapLoop W hw L h4 h6 o
   split
   · exact safe_pure _
   · exact safe_pure _
   · simp only [h3]
     unfold seqArgs mapArgs
     safe_auto
-    all_goals first | exact hs _ _ _ _ _ | exact ht _ _ | exact hm _ _ _ _ _ | (simp at *)
+    all_goals first | exact hri _ | exact hrp _ | exact hs _ _ _ _ _ _ | exact ht _ _ | exact hm _ _ _ _ _ | exact safe_exceedLoop o _ | exact safe_tupleLoop W hw L h2 o _ _ _ _ | exact safe_tupleExtra W hw o _ _ _ _ | (simp at *)
 
 /-- **Rule.parse lets nothing but ParseError out** — for every behaviour of converter, validators,
 `origin(value)`, dict insertion and contained-type conversion.  `pre_validate`/`post_validate` are
 developer hooks (identity unless overridden): they are the only assumption. -/
-theorem C04_rule_parse_no_escape (W : World V) (o : Opts) (R : RuleDecl) (v : V)
+theorem C04_rule_parse_no_escape (W : World V) (hw : ∀ s, Safe (W.warn s)) (o : Opts) (R : RuleDecl) (v : V)
     (hpre : ∀ v, Safe (W.pre v)) (hpost : ∀ v, Safe (W.post v)) :
     Safe (ruleParse W Legacy.none o R v) := by
   unfold ruleParse
-  have ha := safe_argsParse W Legacy.none rfl o R
-  have hv := safe_validatorsLoop W o
-  have hc := safe_parseContains W Legacy.none rfl o
-  have hcc := safe_containsCount W Legacy.none rfl
+  have ha := safe_argsParse W hw Legacy.none rfl o R
+  have hv := safe_validatorsLoop W hw o
+  have hc := safe_parseContains W hw Legacy.none rfl rfl o
+  have hcc := safe_containsCount W hw Legacy.none rfl
   safe_auto
-  all_goals first | exact hpre _ | exact hpost _ | exact ha _ | exact hv _ _ | exact hc _ _ _ _ | exact hcc _ _ _ _
+  all_goals first | exact hpre _ | exact hpost _ | exact ha _ | exact hv _ _ | exact hc _ _ _ _ | exact hcc _ _ _ _ | exact safe_readItemsOf W hw _ (by first | rfl | (simp [Legacy.ruleFixed] at hL; exact hL.2)) o _
 
 /-- the same with the repaired sites individually switched back: whatever is not switched stays proved -/
-theorem C04_rule_parse_no_escape_partial (W : World V) (L : Legacy) (hL : L.ruleFixed = true) (o : Opts)
+theorem C04_rule_parse_no_escape_partial (W : World V) (hw : ∀ s, Safe (W.warn s)) (L : Legacy) (hL : L.ruleFixed = true) (o : Opts)
     (R : RuleDecl) (v : V) (hpre : ∀ v, Safe (W.pre v)) (hpost : ∀ v, Safe (W.post v)) :
     Safe (ruleParse W L o R v) := by
   unfold ruleParse
-  have ha := safe_argsParse W L hL o R
-  have hv := safe_validatorsLoop W o
-  have hc := safe_parseContains W L (by simp [Legacy.ruleFixed] at hL; exact hL.1.2) o
-  have hcc := safe_containsCount W L (by simp [Legacy.ruleFixed] at hL; exact hL.1.2)
+  have ha := safe_argsParse W hw L hL o R
+  have hv := safe_validatorsLoop W hw o
+  have hc := safe_parseContains W hw L (by simp [Legacy.ruleFixed] at hL; exact hL.1.1.2) (by simp [Legacy.ruleFixed] at hL; exact hL.2) o
+  have hcc := safe_containsCount W hw L (by simp [Legacy.ruleFixed] at hL; exact hL.1.1.2)
   safe_auto
-  all_goals first | exact hpre _ | exact hpost _ | exact ha _ | exact hv _ _ | exact hc _ _ _ _ | exact hcc _ _ _ _
+  all_goals first | exact hpre _ | exact hpost _ | exact ha _ | exact hv _ _ | exact hc _ _ _ _ | exact hcc _ _ _ _ | exact safe_readItemsOf W hw _ (by first | rfl | (simp [Legacy.ruleFixed] at hL; exact hL.2)) o _
 
 /-! ## LogicalType.logical_parse -/
 
-theorem safe_allLoop (W : World V) (L : Legacy) (hL : L.allOfRaw = false) (o : Opts) (ts : List Ty) :
+theorem safe_allLoop (W : World V) (hw : ∀ s, Safe (W.warn s)) (L : Legacy) (hL : L.allOfRaw = false) (o : Opts) (ts : List Ty) :
     ∀ v, Safe (allLoop W L o ts v) := by
   induction ts with
   | nil => intro v; exact safe_pure _
@@ -206,12 +215,12 @@ theorem safe_allLoop (W : World V) (L : Legacy) (hL : L.allOfRaw = false) (o : O
       | none => exact safe_pure _
       | some y => exact ih y
 
-theorem safe_anyStage (W : World V) (stage : Nat) (ts : List Ty) (v : V) : Safe (anyStage W stage ts v) := by
+theorem safe_anyStage (W : World V) (hw : ∀ s, Safe (W.warn s)) (stage : Nat) (ts : List Ty) (v : V) : Safe (anyStage W stage ts v) := by
   induction ts with
   | nil => exact safe_pure _
   | cons t ts ih => unfold anyStage; safe_auto
 
-theorem safe_xorLoop (W : World V) (o : Opts) (v : V) (ts : List Ty) : ∀ r x, Safe (xorLoop W o v ts r x) := by
+theorem safe_xorLoop (W : World V) (hw : ∀ s, Safe (W.warn s)) (o : Opts) (v : V) (ts : List Ty) : ∀ r x, Safe (xorLoop W o v ts r x) := by
   induction ts with
   | nil => intro r x; exact safe_pure _
   | cons t ts ih =>
@@ -220,42 +229,42 @@ theorem safe_xorLoop (W : World V) (o : Opts) (v : V) (ts : List Ty) : ∀ r x, 
     safe_auto
     all_goals exact ih _ _
 
-theorem safe_notLoop (W : World V) (o : Opts) (ts : List Ty) (v : V) : Safe (notLoop W o ts v) := by
+theorem safe_notLoop (W : World V) (hw : ∀ s, Safe (W.warn s)) (o : Opts) (ts : List Ty) (v : V) : Safe (notLoop W o ts v) := by
   induction ts with
   | nil => exact safe_pure _
   | cons t ts ih => unfold notLoop; safe_auto
 
 /-- **a logical type (`&`, `|`, `^`, `~`) lets nothing but ParseError out**, whatever its arguments do -/
-theorem C04_logical_no_escape (W : World V) (o : Opts) (c : Comb) (args : List Ty) (v : V) :
+theorem C04_logical_no_escape (W : World V) (hw : ∀ s, Safe (W.warn s)) (o : Opts) (c : Comb) (args : List Ty) (v : V) :
     Safe (logicalParse W Legacy.none o c args v) := by
-  have h1 := safe_allLoop W Legacy.none rfl o args
-  have h2 := fun k => safe_anyStage W k args v
-  have h3 := safe_xorLoop W o v args
-  have h4 := safe_notLoop W o args v
+  have h1 := safe_allLoop W hw Legacy.none rfl o args
+  have h2 := fun k => safe_anyStage W hw k args v
+  have h3 := safe_xorLoop W hw o v args
+  have h4 := safe_notLoop W hw o args v
   unfold logicalParse
   cases c <;> (dsimp only; safe_auto)
   all_goals first | exact h1 _ | exact h2 _ | exact h3 _ _ | exact h4
 
-theorem C04_logical_no_escape_partial (W : World V) (L : Legacy) (hL : L.allOfRaw = false) (o : Opts)
+theorem C04_logical_no_escape_partial (W : World V) (hw : ∀ s, Safe (W.warn s)) (L : Legacy) (hL : L.allOfRaw = false) (o : Opts)
     (c : Comb) (args : List Ty) (v : V) : Safe (logicalParse W L o c args v) := by
-  have h1 := safe_allLoop W L hL o args
-  have h2 := fun k => safe_anyStage W k args v
-  have h3 := safe_xorLoop W o v args
-  have h4 := safe_notLoop W o args v
+  have h1 := safe_allLoop W hw L hL o args
+  have h2 := fun k => safe_anyStage W hw k args v
+  have h3 := safe_xorLoop W hw o v args
+  have h4 := safe_notLoop W hw o args v
   unfold logicalParse
   cases c <;> (dsimp only; safe_auto)
   all_goals first | exact h1 _ | exact h2 _ | exact h3 _ _ | exact h4
 
 /-! ## fields, data classes -/
 
-theorem safe_fieldConvert (W : DataWorld V) (o : Opts) (f : FieldDecl V) (t : Ty) (v : V) (b : Bool) :
+theorem safe_fieldConvert (W : DataWorld V) (hw : ∀ s, Safe (W.warn s)) (o : Opts) (f : FieldDecl V) (t : Ty) (v : V) (b : Bool) :
     Safe (fieldConvert W o f t v b) := by
   unfold fieldConvert
   safe_auto
 
-theorem safe_parseValue (W : DataWorld V) (L : Legacy) (hL : L.discLookup = false) (o : Opts)
+theorem safe_parseValue (W : DataWorld V) (hw : ∀ s, Safe (W.warn s)) (L : Legacy) (hL : L.discLookup = false) (o : Opts)
     (f : FieldDecl V) (v : V) (b : Bool) : Safe (parseValue W L o f v b) := by
-  have h := safe_fieldConvert W o f
+  have h := safe_fieldConvert W hw o f
   unfold parseValue
   simp only [hL]
   safe_auto
@@ -263,16 +272,16 @@ theorem safe_parseValue (W : DataWorld V) (L : Legacy) (hL : L.discLookup = fals
 
 /-- **a field's `parse_value` lets nothing but ParseError out** (any converter, any `to_dict`, any
 discriminator lookup) -/
-theorem C04_parse_value_no_escape (W : DataWorld V) (o : Opts) (f : FieldDecl V) (v : V) (asAbsent : Bool) :
+theorem C04_parse_value_no_escape (W : DataWorld V) (hw : ∀ s, Safe (W.warn s)) (o : Opts) (f : FieldDecl V) (v : V) (asAbsent : Bool) :
     Safe (parseValue W Legacy.none o f v asAbsent) :=
-  safe_parseValue W Legacy.none rfl o f v asAbsent
+  safe_parseValue W hw Legacy.none rfl o f v asAbsent
 
-theorem safe_parseAddition (W : DataWorld V) (o : Opts) (P : ParserDecl V) (k : Nat) (v : V) :
+theorem safe_parseAddition (W : DataWorld V) (hw : ∀ s, Safe (W.warn s)) (o : Opts) (P : ParserDecl V) (k : Nat) (v : V) :
     Safe (parseAddition W o P k v) := by
   unfold parseAddition
   safe_auto
 
-theorem safe_aliasConflict (W : DataWorld V) (L : Legacy) (hL : L.aliasCompare = false) (a b : V) :
+theorem safe_aliasConflict (W : DataWorld V) (hw : ∀ s, Safe (W.warn s)) (L : Legacy) (hL : L.aliasCompare = false) (a b : V) :
     Safe (aliasConflict W L a b) := by
   unfold aliasConflict
   simp only [hL]
@@ -280,9 +289,9 @@ theorem safe_aliasConflict (W : DataWorld V) (L : Legacy) (hL : L.aliasCompare =
 
 def Legacy.dataFixed (L : Legacy) : Bool := !L.aliasCompare && !L.discLookup
 
-theorem safe_dfScan (W : DataWorld V) (L : Legacy) (hL : L.aliasCompare = false) (P : ParserDecl V)
+theorem safe_dfScan (W : DataWorld V) (hw : ∀ s, Safe (W.warn s)) (L : Legacy) (hL : L.aliasCompare = false) (P : ParserDecl V)
     (data : List (Nat × V)) : ∀ inputs conflicts, Safe (dfScan W L P data inputs conflicts) := by
-  have hac := safe_aliasConflict W L hL
+  have hac := safe_aliasConflict W hw L hL
   induction data with
   | nil => intro inputs conflicts; exact safe_pure _
   | cons kv rest ih =>
@@ -292,11 +301,11 @@ theorem safe_dfScan (W : DataWorld V) (L : Legacy) (hL : L.aliasCompare = false)
     safe_auto
     all_goals first | exact ih _ _ | exact hac _ _
 
-theorem safe_dfItems (W : DataWorld V) (L : Legacy) (hL : L.dataFixed = true) (o : Opts) (P : ParserDecl V)
+theorem safe_dfItems (W : DataWorld V) (hw : ∀ s, Safe (W.warn s)) (L : Legacy) (hL : L.dataFixed = true) (o : Opts) (P : ParserDecl V)
     (ex : List Nat) (cf : List Nat) (inputs : List (Given V)) : ∀ a, Safe (dfItems W L o P ex cf inputs a) := by
   simp [Legacy.dataFixed] at hL
-  have hpv := safe_parseValue W L hL.2 o
-  have hpa := safe_parseAddition W o P
+  have hpv := safe_parseValue W hw L hL.2 o
+  have hpa := safe_parseAddition W hw o P
   induction inputs with
   | nil => intro a; exact safe_pure _
   | cons g rest ih =>
@@ -315,13 +324,13 @@ theorem safe_dfMissing (o : Opts) (ex : List Nat) (given : List Nat) (fs : List 
     safe_auto
     all_goals exact ih _
 
-theorem safe_depsCheck (W : DataWorld V) (o : Opts) (a : Acc V) : Safe (depsCheck W o a) := by
+theorem safe_depsCheck (W : DataWorld V) (hw : ∀ s, Safe (W.warn s)) (o : Opts) (a : Acc V) : Safe (depsCheck W o a) := by
   unfold depsCheck
   safe_auto
 
-theorem safe_ffConflicts (W : DataWorld V) (L : Legacy) (hL : L.aliasCompare = false)
+theorem safe_ffConflicts (W : DataWorld V) (hw : ∀ s, Safe (W.warn s)) (L : Legacy) (hL : L.aliasCompare = false)
     (value : V) (xs : List V) : Safe (ffConflicts W L value xs) := by
-  have hac := safe_aliasConflict W L hL
+  have hac := safe_aliasConflict W hw L hL
   induction xs with
   | nil => exact safe_pure _
   | cons x xs ih =>
@@ -329,11 +338,11 @@ theorem safe_ffConflicts (W : DataWorld V) (L : Legacy) (hL : L.aliasCompare = f
     safe_auto
     all_goals exact hac _ _
 
-theorem safe_ffFields (W : DataWorld V) (L : Legacy) (hL : L.dataFixed = true) (o : Opts) (ex : List Nat)
+theorem safe_ffFields (W : DataWorld V) (hw : ∀ s, Safe (W.warn s)) (L : Legacy) (hL : L.dataFixed = true) (o : Opts) (ex : List Nat)
     (data : List (Nat × V)) (fs : List (FieldDecl V)) : ∀ a, Safe (ffFields W L o ex data fs a) := by
   simp [Legacy.dataFixed] at hL
-  have hpv := safe_parseValue W L hL.2 o
-  have hfc := safe_ffConflicts W L hL.1
+  have hpv := safe_parseValue W hw L hL.2 o
+  have hfc := safe_ffConflicts W hw L hL.1
   induction fs with
   | nil => intro a; exact safe_pure _
   | cons f fs ih =>
@@ -342,9 +351,9 @@ theorem safe_ffFields (W : DataWorld V) (L : Legacy) (hL : L.dataFixed = true) (
     safe_auto
     all_goals first | exact ih _ | exact hpv _ _ _ | exact hfc _ _
 
-theorem safe_ffAddition (W : DataWorld V) (o : Opts) (P : ParserDecl V) (used : List Nat)
+theorem safe_ffAddition (W : DataWorld V) (hw : ∀ s, Safe (W.warn s)) (o : Opts) (P : ParserDecl V) (used : List Nat)
     (data : List (Nat × V)) : ∀ acc, Safe (ffAddition W o P used data acc) := by
-  have hpa := safe_parseAddition W o P
+  have hpa := safe_parseAddition W hw o P
   induction data with
   | nil => intro acc; exact safe_pure _
   | cons kv rest ih =>
@@ -354,61 +363,62 @@ theorem safe_ffAddition (W : DataWorld V) (o : Opts) (P : ParserDecl V) (used : 
     safe_auto
     all_goals first | exact ih _ | exact hpa _ _
 
-theorem safe_parseData (W : DataWorld V) (L : Legacy) (hL : L.dataFixed = true) (o : Opts)
+theorem safe_parseData (W : DataWorld V) (hw : ∀ s, Safe (W.warn s)) (L : Legacy) (hL : L.dataFixed = true) (o : Opts)
     (P : ParserDecl V) (ex : List Nat) (data : List (Nat × V)) : Safe (parseData W L o P ex data) := by
-  have h0 := safe_dfScan W L (by simp [Legacy.dataFixed] at hL; exact hL.1) P data
-  have h1 := safe_dfItems W L hL o P ex
+  have h0 := safe_dfScan W hw L (by simp [Legacy.dataFixed] at hL; exact hL.1) P data
+  have h1 := safe_dfItems W hw L hL o P ex
   have h2 := safe_dfMissing (V := V) o ex
-  have h3 := safe_depsCheck W o
-  have h4 := safe_ffFields W L hL o ex data P.fields
-  have h5 := safe_ffAddition W o P
+  have h3 := safe_depsCheck W hw o
+  have h4 := safe_ffFields W hw L hL o ex data P.fields
+  have h5 := safe_ffAddition W hw o P
   unfold parseData dataFirstParse fieldFirstParse
   safe_auto
   all_goals first | exact h0 _ _ | exact h1 _ _ _ | exact h2 _ _ _ | exact h3 _ | exact h4 _ | exact h5 _ _ _
 
 /-- **`parse_data` (data-first and field-first) lets nothing but ParseError out**: every field
 conversion, alias comparison, addition conversion and bookkeeping error is a ParseError -/
-theorem C04_parse_data_no_escape (W : DataWorld V) (o : Opts) (P : ParserDecl V) (ex : List Nat)
+theorem C04_parse_data_no_escape (W : DataWorld V) (hw : ∀ s, Safe (W.warn s)) (o : Opts) (P : ParserDecl V) (ex : List Nat)
     (data : List (Nat × V)) : Safe (parseData W Legacy.none o P ex data) :=
-  safe_parseData W Legacy.none rfl o P ex data
+  safe_parseData W hw Legacy.none rfl o P ex data
 
-theorem safe_parserCall (W : DataWorld V) (L : Legacy) (hL : L.dataFixed = true) (o : Opts)
+theorem safe_parserCall (W : DataWorld V) (hw : ∀ s, Safe (W.warn s)) (L : Legacy) (hL : L.dataFixed = true) (o : Opts)
     (P : ParserDecl V) (data : List (Nat × V)) : Safe (parserCall W L o P data) := by
-  have h := safe_parseData W L hL o P [] data
+  have h := safe_parseData W hw L hL o P [] data
   unfold parserCall
   safe_auto
 
 /-- **data-class construction**: only ParseError, unless the developer's own
 `__post_init__`/`__validate__` raises something else; for the running options `o`, whatever they are -/
-theorem C04_class_init_no_escape (W : DataWorld V) (o : Opts) (P : ParserDecl V) (postInit : M Unit)
+theorem C04_class_init_no_escape (W : DataWorld V) (hw : ∀ s, Safe (W.warn s)) (o : Opts) (P : ParserDecl V) (postInit : M Unit)
     (hpost : Safe postInit) (kw : List (Nat × V)) (schema : Bool) :
     Safe (classInit W Legacy.none o P postInit kw schema) := by
-  have h := safe_parserCall W Legacy.none rfl o P kw
+  have h := safe_parserCall W hw Legacy.none rfl o P kw
   unfold classInit
   safe_auto
 
 /-- `Cls(**kwargs)` (context made from the declared options) -/
-theorem C04_class_call_no_escape (W : DataWorld V) (declared : Opts) (P : ParserDecl V) (postInit : M Unit)
+theorem C04_class_call_no_escape (W : DataWorld V) (hw : ∀ s, Safe (W.warn s)) (declared : Opts) (P : ParserDecl V) (postInit : M Unit)
     (hpost : Safe postInit) (kw : List (Nat × V)) (schema : Bool) :
     Safe (classCall W Legacy.none declared P postInit kw schema) :=
-  C04_class_init_no_escape W _ P postInit hpost kw schema
+  C04_class_init_no_escape W hw _ P postInit hpost kw schema
 
 /-- **`Cls.__from__(data, options)` / `init_dataclass` / nested data-class conversion**: only ParseError, for ANY
 input object — a mapping with keys of any type, a mapping whose own protocol raises, a non-mapping — any declared
 options, any options given for the call, any enclosing context.  (No string-keyed proviso any more: with
 fixes/C04-nonstring-keys the keys are checked, and the mapping is read, inside the wrapping `try`.) -/
-theorem C04_init_dataclass_no_escape (W : DataWorld V) (declared : Opts) (given ctx : Option Opts)
+theorem C04_init_dataclass_no_escape (W : DataWorld V) (hw : ∀ s, Safe (W.warn s)) (declared : Opts) (given ctx : Option Opts)
     (P : ParserDecl V) (postInit : M Unit) (hpost : Safe postInit) (data : V)
     (schema : Bool) : Safe (initDataclass W Legacy.none declared given ctx P postInit data schema) := by
-  have h := fun o kw => C04_class_init_no_escape W o P postInit hpost kw schema
+  have h := fun o kw => C04_class_init_no_escape W hw o P postInit hpost kw schema
   unfold initDataclass
   simp only [Legacy.none, Bool.false_and]
   safe_auto
-  all_goals first | exact h _ _ | exact safe_parseData W Legacy.none rfl _ P [] _ | (simp at *)
+  all_goals first | exact h _ _ | exact safe_parseData W hw Legacy.none rfl _ P [] _ | (simp at *)
 
-/-- **no instance on error**: when parsing fails, construction *is* that failure — attribute assignment
+/-- sequencing lemma of the MODEL (one unfolding of `bind`; its content is model fidelity, see the trace theorems
+`C04_instance_only_after_clean_parse*` for the statement about events): when parsing fails, construction *is* that failure — attribute assignment
 and the post-init hook are never sequenced and the context is left exactly as parsing left it -/
-theorem C04_no_instance_on_error (W : DataWorld V) (L : Legacy) (o : Opts) (P : ParserDecl V)
+theorem seq_no_instance_on_error (W : DataWorld V) (L : Legacy) (o : Opts) (P : ParserDecl V)
     (postInit : M Unit) (kw : List (Nat × V)) (schema : Bool) (s : St) (e : Exc)
     (hfail : (parserCall W L o P kw s).1 = .raise e) :
     classInit W L o P postInit kw schema s = (.raise e, (parserCall W L o P kw s).2) := by
@@ -421,21 +431,21 @@ theorem C04_no_instance_on_error (W : DataWorld V) (L : Legacy) (o : Opts) (P : 
   rfl
 
 /-- the trace reading: a failed construction adds no `attrsSet`/`postInit` event of its own -/
-theorem C04_no_instance_on_error_trace (W : DataWorld V) (L : Legacy) (o : Opts) (P : ParserDecl V)
+theorem seq_no_instance_on_error_trace (W : DataWorld V) (L : Legacy) (o : Opts) (P : ParserDecl V)
     (postInit : M Unit) (kw : List (Nat × V)) (schema : Bool) (s : St) (e : Exc)
     (hfail : (parserCall W L o P kw s).1 = .raise e) :
     (classInit W L o P postInit kw schema s).2.trace = (parserCall W L o P kw s).2.trace := by
-  rw [C04_no_instance_on_error W L o P postInit kw schema s e hfail]
+  rw [seq_no_instance_on_error W L o P postInit kw schema s e hfail]
 
 /-- **`Cls(<dict>)`** (the positional form of the generated `__init__`): only ParseError, for a dict with keys of any
 type and for a dict subclass whose own protocol raises -/
-theorem C04_class_call_dict_no_escape (W : DataWorld V) (declared : Opts) (P : ParserDecl V) (postInit : M Unit)
+theorem C04_class_call_dict_no_escape (W : DataWorld V) (hw : ∀ s, Safe (W.warn s)) (declared : Opts) (P : ParserDecl V) (postInit : M Unit)
     (hpost : Safe postInit) (d : V) (schema : Bool) :
     Safe (classCallDict W Legacy.none declared P postInit d schema) := by
-  have h := fun o kw => C04_class_init_no_escape W o P postInit hpost kw schema
+  have h := fun o kw => C04_class_init_no_escape W hw o P postInit hpost kw schema
   unfold classCallDict
   safe_auto
-  all_goals first | exact h _ _ | exact safe_parseData W Legacy.none rfl _ P [] _ | (simp at *)
+  all_goals first | exact h _ _ | exact safe_parseData W hw Legacy.none rfl _ P [] _ | (simp at *)
 
 /-! ### declared vs running options: collected errors are never dropped -/
 
@@ -487,7 +497,7 @@ theorem C04_no_instance_with_collected_errors (W : DataWorld V) (L : Legacy) (o 
         | nil => exact absurd ht h
         | cons a l => simp
     simp [hc]
-  have := C04_no_instance_on_error W L o P postInit kw schema s _ (by rw [hfail])
+  have := seq_no_instance_on_error W L o P postInit kw schema s _ (by rw [hfail])
   rw [this, hfail]
 
 /-- the declared options matter only through the options the context runs with -/
@@ -513,15 +523,15 @@ theorem C04_declared_options_run (d c : Opts) (h : c.override = false ∨ d.over
 
 /-! ## decorated functions -/
 
-theorem safe_parsePosType (W : DataWorld V) (o : Opts) (F : FuncDecl V) (i : Nat) (v : V) :
+theorem safe_parsePosType (W : DataWorld V) (hw : ∀ s, Safe (W.warn s)) (o : Opts) (F : FuncDecl V) (i : Nat) (v : V) :
     Safe (parsePosType W o F i v) := by
   unfold parsePosType
   safe_auto
 
-theorem safe_posArgs (W : DataWorld V) (L : Legacy) (hL : L.discLookup = false) (o : Opts) (F : FuncDecl V)
+theorem safe_posArgs (W : DataWorld V) (hw : ∀ s, Safe (W.warn s)) (L : Legacy) (hL : L.discLookup = false) (o : Opts) (F : FuncDecl V)
     (xs : List V) : ∀ i args keys, Safe (posArgs W L o F xs i args keys) := by
-  have hpv := safe_parseValue W L hL o
-  have hpt := safe_parsePosType W o F
+  have hpv := safe_parseValue W hw L hL o
+  have hpt := safe_parsePosType W hw o F
   induction xs with
   | nil => intro i args keys; exact safe_pure _
   | cons x xs ih =>
@@ -541,28 +551,29 @@ theorem safe_posOnlyMissing (o : Opts) (F : FuncDecl V) (fs : List (Nat × Field
     safe_auto
     all_goals exact ih _ _
 
-theorem safe_parseParams (W : DataWorld V) (L : Legacy) (hL : L.dataFixed = true) (o : Opts)
+theorem safe_parseParams (W : DataWorld V) (hw : ∀ s, Safe (W.warn s)) (L : Legacy) (hL : L.dataFixed = true) (o : Opts)
     (F : FuncDecl V) (args : List V) (kw : List (Nat × V)) : Safe (parseParams W L o F args kw) := by
-  have h1 := safe_posArgs W L (by simp [Legacy.dataFixed] at hL; exact hL.2) o F args
+  have h1 := safe_posArgs W hw L (by simp [Legacy.dataFixed] at hL; exact hL.2) o F args
   have h2 := safe_posOnlyMissing o F F.posOnly
-  have h3 := fun ex => safe_parseData W L hL o F.parser ex kw
+  have h3 := fun ex => safe_parseData W hw L hL o F.parser ex kw
   unfold parseParams
   safe_auto
   all_goals first | exact h1 _ _ _ | exact h2 _ _ | exact h3 _
 
 /-- **argument parsing of a decorated function lets nothing but ParseError out** -/
-theorem C04_parse_params_no_escape (W : DataWorld V) (o : Opts) (F : FuncDecl V) (args : List V)
+theorem C04_parse_params_no_escape (W : DataWorld V) (hw : ∀ s, Safe (W.warn s)) (o : Opts) (F : FuncDecl V) (args : List V)
     (kw : List (Nat × V)) : Safe (parseParams W Legacy.none o F args kw) :=
-  safe_parseParams W Legacy.none rfl o F args kw
+  safe_parseParams W hw Legacy.none rfl o F args kw
 
-theorem safe_parseResult (W : DataWorld V) (o : Opts) (F : FuncDecl V) (r : V) :
+theorem safe_parseResult (W : DataWorld V) (hw : ∀ s, Safe (W.warn s)) (o : Opts) (F : FuncDecl V) (r : V) :
     Safe (parseResult W o F r) := by
   unfold parseResult
   safe_auto
 
-/-- **no body on error**: when argument parsing fails, the call *is* that failure: the result and the
+/-- sequencing lemma of the MODEL (one unfolding of `bind`; see `C04_body_entered_only_after_parse` for the trace
+statement): when argument parsing fails, the call *is* that failure: the result and the
 final context do not mention the body — it is never entered, whatever it would have done -/
-theorem C04_no_body_on_error (W : DataWorld V) (L : Legacy) (o : Opts) (F : FuncDecl V)
+theorem seq_no_body_on_error (W : DataWorld V) (L : Legacy) (o : Opts) (F : FuncDecl V)
     (body : List V → List (Nat × V) → M V) (args : List V) (kw : List (Nat × V)) (s : St) (e : Exc)
     (hfail : (parseParams W L o F args kw s).1 = .raise e) :
     syncCall W L o F body args kw s = (.raise e, (parseParams W L o F args kw s).2) := by
@@ -575,21 +586,21 @@ theorem C04_no_body_on_error (W : DataWorld V) (L : Legacy) (o : Opts) (F : Func
   rfl
 
 /-- hence two different bodies cannot be told apart through a call whose arguments do not parse -/
-theorem C04_body_irrelevant_on_error (W : DataWorld V) (L : Legacy) (o : Opts) (F : FuncDecl V)
+theorem seq_body_irrelevant_on_error (W : DataWorld V) (L : Legacy) (o : Opts) (F : FuncDecl V)
     (body body' : List V → List (Nat × V) → M V) (args : List V) (kw : List (Nat × V)) (s : St) (e : Exc)
     (hfail : (parseParams W L o F args kw s).1 = .raise e) :
     syncCall W L o F body args kw s = syncCall W L o F body' args kw s := by
-  rw [C04_no_body_on_error W L o F body args kw s e hfail,
-      C04_no_body_on_error W L o F body' args kw s e hfail]
+  rw [seq_no_body_on_error W L o F body args kw s e hfail,
+      seq_no_body_on_error W L o F body' args kw s e hfail]
 
 /-- **the only non-ParseError exception a decorated call can produce is one its own body raised**:
 the arguments parsed, the body was entered with them, and the body itself ended with that exception -/
-theorem C04_call_escape_only_from_body (W : DataWorld V) (o : Opts) (F : FuncDecl V)
+theorem C04_call_escape_only_from_body (W : DataWorld V) (hw : ∀ s, Safe (W.warn s)) (o : Opts) (F : FuncDecl V)
     (body : List V → List (Nat × V) → M V) (args : List V) (kw : List (Nat × V)) (s : St)
     (hesc : (syncCall W Legacy.none o F body args kw s).1.escapes = true) :
     ∃ p s1, parseParams W Legacy.none o F args kw s = (.ok p, s1) ∧
       (body p.1 p.2 { s1 with trace := s1.trace ++ [.enterBody] }).1.escapes = true := by
-  have hp := (C04_parse_params_no_escape W o F args kw).h s
+  have hp := (C04_parse_params_no_escape W hw o F args kw).h s
   unfold syncCall at hesc
   rw [bind_apply] at hesc
   rcases h : parseParams W Legacy.none o F args kw s with ⟨r, s1⟩
@@ -610,12 +621,12 @@ theorem C04_call_escape_only_from_body (W : DataWorld V) (o : Opts) (F : FuncDec
     | diverge => simp [Res.escapes] at hesc
     | ok r =>
       simp only at hesc
-      have := (safe_parseResult W o F r).h s2
+      have := (safe_parseResult W hw o F r).h s2
       rw [this] at hesc
       cases hesc
 
 /-- corollary: a body that raises only ParseErrors (or nothing) gives a call that does too -/
-theorem C04_call_no_escape (W : DataWorld V) (o : Opts) (F : FuncDecl V)
+theorem C04_call_no_escape (W : DataWorld V) (hw : ∀ s, Safe (W.warn s)) (o : Opts) (F : FuncDecl V)
     (body : List V → List (Nat × V) → M V) (hbody : ∀ a k, Safe (body a k)) (args : List V)
     (kw : List (Nat × V)) : Safe (syncCall W Legacy.none o F body args kw) := by
   constructor
@@ -623,7 +634,7 @@ theorem C04_call_no_escape (W : DataWorld V) (o : Opts) (F : FuncDecl V)
   cases hesc : (syncCall W Legacy.none o F body args kw s).1.escapes with
   | false => rfl
   | true =>
-    obtain ⟨p, s1, _, hb⟩ := C04_call_escape_only_from_body W o F body args kw s hesc
+    obtain ⟨p, s1, _, hb⟩ := C04_call_escape_only_from_body W hw o F body args kw s hesc
     rw [(hbody p.1 p.2).h] at hb
     cases hb
 
@@ -636,6 +647,9 @@ structure World.Terminates (W : World V) : Prop where
   construct : ∀ t v, Term (W.construct t v)
   insertKey : ∀ v, Term (W.insertKey v)
   validate : ∀ k v, Term (W.validate k v)
+  readItems : ∀ v, Term (W.readItems v)
+  readPairs : ∀ v, Term (W.readPairs v)
+  warn : ∀ s, Term (W.warn s)
   keyStr : ∀ v, Term (W.keyStr v)
   pre : ∀ v, Term (W.pre v)
   post : ∀ v, Term (W.post v)
@@ -650,10 +664,21 @@ structure DataWorld.Terminates (W : DataWorld V) : Prop where
 
 macro "term_close" hW:ident : tactic => `(tactic| first
   | exact ($hW).conv _ _ | exact ($hW).convAt _ _ _ | exact ($hW).construct _ _ | exact ($hW).insertKey _
-  | exact ($hW).validate _ _ | exact ($hW).pre _ | exact ($hW).post _ | exact ($hW).keyStr _)
+  | exact ($hW).validate _ _ | exact ($hW).pre _ | exact ($hW).post _ | exact ($hW).keyStr _
+  | exact ($hW).readItems _ | exact ($hW).readPairs _ | exact ($hW).warn _)
 
-theorem term_seqLoop (W : World V) (hW : W.Terminates) (L : Legacy) (o : Opts) (t : Ty) (v : V)
-    (xs : List V) : ∀ i acc, Term (seqLoop W L o t v xs i acc) := by
+theorem term_readItemsOf (W : World V) (hW : W.Terminates) (L : Legacy) (o : Opts) (v : V) : Term (readItemsOf W L o v) := by
+  unfold readItemsOf
+  term_auto
+  all_goals term_close hW
+
+theorem term_readPairsOf (W : World V) (hW : W.Terminates) (L : Legacy) (o : Opts) (v : V) : Term (readPairsOf W L o v) := by
+  unfold readPairsOf
+  term_auto
+  all_goals term_close hW
+
+theorem term_seqLoop (W : World V) (hW : W.Terminates) (L : Legacy) (o : Opts) (t : Ty) (v : V) (all : List V)
+    (xs : List V) : ∀ i acc, Term (seqLoop W L o t v all xs i acc) := by
   induction xs with
   | nil => intro i acc; exact term_pure _
   | cons x xs ih =>
@@ -667,7 +692,7 @@ theorem term_exceedLoop (o : Opts) (is : List Nat) : Term (exceedLoop o is) := b
   | nil => exact term_pure _
   | cons i is ih => unfold exceedLoop; term_auto
 
-theorem term_tupleLoop (W : World V) (hW : W.Terminates) (L : Legacy) (o : Opts) (v : V)
+theorem term_tupleLoop (W : World V) (hW : W.Terminates) (L : Legacy) (o : Opts) (v : List V)
     (ts : List Ty) : ∀ i acc, Term (tupleLoop W L o v ts i acc) := by
   induction ts with
   | nil => intro i acc; exact term_pure _
@@ -689,12 +714,13 @@ theorem term_tupleExtra (W : World V) (hW : W.Terminates) (o : Opts) (t : Ty) (x
 
 theorem term_tupleArgs (W : World V) (hW : W.Terminates) (L : Legacy) (o : Opts) (ts : List Ty) (v : V) :
     Term (tupleArgs W L o ts v) := by
-  have h1 := term_tupleLoop W hW L o v ts
+  have h0 := term_readItemsOf W hW L o v
+  have h1 := fun xs => term_tupleLoop W hW L o xs ts
   have h2 := term_tupleExtra W hW o
   have h3 := term_exceedLoop o
   unfold tupleArgs
   term_auto
-  all_goals first | exact h1 _ _ | exact h2 _ _ _ _ | exact h3 _
+  all_goals first | exact h1 _ _ _ | exact h2 _ _ _ _ | exact h3 _
 
 theorem term_renderKey (W : World V) (hW : W.Terminates) (L : Legacy) (k : V) : Term (renderKey W L k) := by
   unfold renderKey
@@ -735,15 +761,18 @@ theorem term_validatorsLoop (W : World V) (hW : W.Terminates) (o : Opts) (ks : L
 
 theorem term_argsParse (W : World V) (hW : W.Terminates) (L : Legacy) (o : Opts) (R : RuleDecl) (v : V) :
     Term (argsParse W L o R v) := by
+  have hri := term_readItemsOf W hW L o
+  have hrp := term_readPairsOf W hW L o
   have hs := term_seqLoop W hW L o
   have ht := term_tupleArgs W hW L o
   have hm := term_mapLoop W hW L o
   unfold argsParse seqArgs mapArgs
   term_auto
-  all_goals first | exact hs _ _ _ _ _ | exact ht _ _ | exact hm _ _ _ _ _ | term_close hW
+  all_goals first | exact hri _ | exact hrp _ | exact hs _ _ _ _ _ _ | exact ht _ _ | exact hm _ _ _ _ _ | exact term_tupleLoop W hW L o _ _ _ _ | exact term_exceedLoop o _ | exact term_tupleExtra W hW o _ _ _ _ | term_close hW
 
 theorem term_parseContains (W : World V) (hW : W.Terminates) (L : Legacy) (o : Opts) (t : Ty)
     (a b : Option Nat) (v : V) : Term (parseContains W L o t a b v) := by
+  have h0 := term_readItemsOf W hW L o v
   have h := term_containsCount W hW L t
   unfold parseContains
   term_auto
@@ -758,7 +787,7 @@ theorem C04_rule_parse_terminates (W : World V) (hW : W.Terminates) (L : Legacy)
   have hcc := term_containsCount W hW L
   unfold ruleParse
   term_auto
-  all_goals first | exact ha _ | exact hv _ _ | exact hc _ _ _ _ | exact hcc _ _ _ _ | term_close hW
+  all_goals first | exact ha _ | exact hv _ _ | exact hc _ _ _ _ | exact hcc _ _ _ _ | exact term_readItemsOf W hW L o _ | term_close hW
 
 /-- contrapositive reading: if `Rule.parse` hangs, some component hangs -/
 theorem C04_rule_parse_diverges_only_with_component (W : World V) (L : Legacy) (o : Opts) (R : RuleDecl)
@@ -819,7 +848,7 @@ theorem C04_logical_terminates (W : World V) (hW : W.Terminates) (L : Legacy) (o
 
 macro "dterm_close" hW:ident : tactic => `(tactic| first
   | exact ($hW).base.conv _ _ | exact ($hW).toDict _ | exact ($hW).castKeys _ | exact ($hW).readMapping _
-  | exact ($hW).discLookup _ _ | exact ($hW).neq _ _)
+  | exact ($hW).discLookup _ _ | exact ($hW).neq _ _ | exact ($hW).base.warn _)
 
 theorem term_fieldConvert (W : DataWorld V) (hW : W.Terminates) (o : Opts) (f : FieldDecl V) (t : Ty) (v : V)
     (b : Bool) : Term (fieldConvert W o f t v b) := by
@@ -974,6 +1003,256 @@ theorem C04_call_terminates (W : DataWorld V) (hW : W.Terminates) (L : Legacy) (
   term_auto
   all_goals first | exact h1 _ _ _ | exact h2 _ _ | exact h3 _ | exact hbody _ _ | dterm_close hW
 
+/-! ## trace statements: the body is entered / attributes are set only after a successful parse -/
+
+/-- every component leaves the event trace alone (only the entry points emit `enterBody`/`attrsSet`/`postInit`) -/
+structure DataWorld.QuietW (W : DataWorld V) : Prop where
+  conv : ∀ t v, Quiet (W.conv t v)
+  warn : ∀ s, Quiet (W.warn s)
+  toDict : ∀ v, Quiet (W.toDict v)
+  castKeys : ∀ v, Quiet (W.castKeys v)
+  readMapping : ∀ v, Quiet (W.readMapping v)
+  discLookup : ∀ f v, Quiet (W.discLookup f v)
+  neq : ∀ a b, Quiet (W.neq a b)
+
+macro "quiet_close" hW:ident : tactic => `(tactic| first
+  | exact ($hW).conv _ _ | exact ($hW).warn _ | exact ($hW).toDict _ | exact ($hW).castKeys _
+  | exact ($hW).readMapping _ | exact ($hW).discLookup _ _ | exact ($hW).neq _ _)
+
+theorem quiet_fieldConvert (W : DataWorld V) (hW : W.QuietW) (o : Opts) (f : FieldDecl V) (t : Ty) (v : V) (b : Bool) :
+    Quiet (fieldConvert W o f t v b) := by
+  unfold fieldConvert
+  quiet_auto
+  all_goals quiet_close hW
+
+theorem quiet_parseValue (W : DataWorld V) (hW : W.QuietW) (L : Legacy) (o : Opts) (f : FieldDecl V) (v : V) (b : Bool) :
+    Quiet (parseValue W L o f v b) := by
+  have h := quiet_fieldConvert W hW o f
+  unfold parseValue
+  quiet_auto
+  all_goals first | exact h _ _ _ | quiet_close hW
+
+theorem quiet_parseAddition (W : DataWorld V) (hW : W.QuietW) (o : Opts) (P : ParserDecl V) (k : Nat) (v : V) :
+    Quiet (parseAddition W o P k v) := by
+  unfold parseAddition
+  quiet_auto
+  all_goals quiet_close hW
+
+theorem quiet_aliasConflict (W : DataWorld V) (hW : W.QuietW) (L : Legacy) (a b : V) : Quiet (aliasConflict W L a b) := by
+  unfold aliasConflict
+  quiet_auto
+  all_goals quiet_close hW
+
+theorem quiet_dfScan (W : DataWorld V) (hW : W.QuietW) (L : Legacy) (P : ParserDecl V) (data : List (Nat × V)) :
+    ∀ inputs conflicts, Quiet (dfScan W L P data inputs conflicts) := by
+  have hac := quiet_aliasConflict W hW L
+  induction data with
+  | nil => intro inputs conflicts; exact quiet_pure _
+  | cons kv rest ih =>
+    intro inputs conflicts
+    obtain ⟨key, v⟩ := kv
+    unfold dfScan
+    quiet_auto
+    all_goals first | exact ih _ _ | exact hac _ _
+
+theorem quiet_dfItems (W : DataWorld V) (hW : W.QuietW) (L : Legacy) (o : Opts) (P : ParserDecl V) (ex cf : List Nat)
+    (inputs : List (Given V)) : ∀ a, Quiet (dfItems W L o P ex cf inputs a) := by
+  have hpv := quiet_parseValue W hW L o
+  have hpa := quiet_parseAddition W hW o P
+  induction inputs with
+  | nil => intro a; exact quiet_pure _
+  | cons g rest ih =>
+    intro a
+    unfold dfItems
+    quiet_auto
+    all_goals first | exact ih _ | exact hpv _ _ _ | exact hpa _ _
+
+theorem quiet_dfMissing (o : Opts) (ex given : List Nat) (fs : List (FieldDecl V)) :
+    ∀ a, Quiet (dfMissing o ex given fs a) := by
+  induction fs with
+  | nil => intro a; exact quiet_pure _
+  | cons f fs ih =>
+    intro a
+    unfold dfMissing
+    quiet_auto
+    all_goals exact ih _
+
+theorem quiet_ffConflicts (W : DataWorld V) (hW : W.QuietW) (L : Legacy) (value : V) (xs : List V) :
+    Quiet (ffConflicts W L value xs) := by
+  have hac := quiet_aliasConflict W hW L
+  induction xs with
+  | nil => exact quiet_pure _
+  | cons x xs ih =>
+    unfold ffConflicts
+    quiet_auto
+    all_goals exact hac _ _
+
+theorem quiet_ffFields (W : DataWorld V) (hW : W.QuietW) (L : Legacy) (o : Opts) (ex : List Nat) (data : List (Nat × V))
+    (fs : List (FieldDecl V)) : ∀ a, Quiet (ffFields W L o ex data fs a) := by
+  have hpv := quiet_parseValue W hW L o
+  have hfc := quiet_ffConflicts W hW L
+  induction fs with
+  | nil => intro a; exact quiet_pure _
+  | cons f fs ih =>
+    intro a
+    unfold ffFields
+    quiet_auto
+    all_goals first | exact ih _ | exact hpv _ _ _ | exact hfc _ _
+
+theorem quiet_ffAddition (W : DataWorld V) (hW : W.QuietW) (o : Opts) (P : ParserDecl V) (used : List Nat)
+    (data : List (Nat × V)) : ∀ acc, Quiet (ffAddition W o P used data acc) := by
+  have hpa := quiet_parseAddition W hW o P
+  induction data with
+  | nil => intro acc; exact quiet_pure _
+  | cons kv rest ih =>
+    intro acc
+    obtain ⟨k, v⟩ := kv
+    unfold ffAddition
+    quiet_auto
+    all_goals first | exact ih _ | exact hpa _ _
+
+theorem quiet_parseData (W : DataWorld V) (hW : W.QuietW) (L : Legacy) (o : Opts) (P : ParserDecl V) (ex : List Nat)
+    (data : List (Nat × V)) : Quiet (parseData W L o P ex data) := by
+  have h0 := quiet_dfScan W hW L P data
+  have h1 := quiet_dfItems W hW L o P ex
+  have h2 := quiet_dfMissing (V := V) o ex
+  have h4 := quiet_ffFields W hW L o ex data P.fields
+  have h5 := quiet_ffAddition W hW o P
+  unfold parseData dataFirstParse fieldFirstParse depsCheck
+  quiet_auto
+  all_goals first | exact h0 _ _ | exact h1 _ _ _ | exact h2 _ _ _ | exact h4 _ | exact h5 _ _ _
+
+theorem quiet_parserCall (W : DataWorld V) (hW : W.QuietW) (L : Legacy) (o : Opts) (P : ParserDecl V)
+    (data : List (Nat × V)) : Quiet (parserCall W L o P data) := by
+  have h := quiet_parseData W hW L o P [] data
+  unfold parserCall
+  quiet_auto
+
+theorem quiet_posArgs (W : DataWorld V) (hW : W.QuietW) (L : Legacy) (o : Opts) (F : FuncDecl V) (xs : List V) :
+    ∀ i args keys, Quiet (posArgs W L o F xs i args keys) := by
+  have hpv := quiet_parseValue W hW L o
+  induction xs with
+  | nil => intro i args keys; exact quiet_pure _
+  | cons x xs ih =>
+    intro i args keys
+    unfold posArgs parsePosType
+    quiet_auto
+    all_goals first | exact ih _ _ _ | exact hpv _ _ _ | quiet_close hW
+
+theorem quiet_posOnlyMissing (o : Opts) (F : FuncDecl V) (fs : List (Nat × FieldDecl V)) :
+    ∀ args keys, Quiet (posOnlyMissing o F fs args keys) := by
+  induction fs with
+  | nil => intro args keys; exact quiet_pure _
+  | cons f fs ih =>
+    intro args keys
+    obtain ⟨index, f⟩ := f
+    unfold posOnlyMissing
+    quiet_auto
+    all_goals exact ih _ _
+
+theorem quiet_parseParams (W : DataWorld V) (hW : W.QuietW) (L : Legacy) (o : Opts) (F : FuncDecl V) (args : List V)
+    (kw : List (Nat × V)) : Quiet (parseParams W L o F args kw) := by
+  have h1 := quiet_posArgs W hW L o F args
+  have h2 := quiet_posOnlyMissing o F F.posOnly
+  have h3 := fun ex => quiet_parseData W hW L o F.parser ex kw
+  unfold parseParams
+  quiet_auto
+  all_goals first | exact h1 _ _ _ | exact h2 _ _ | exact h3 _
+
+/-- **the body is entered only after the arguments parsed** (trace statement, any `Legacy`): if the call's trace holds
+an `enterBody` event that was not there before — whatever the components did, as long as they do not write events
+themselves — then `parse_params` returned normally, and it did so with nothing left in the context's error lists -/
+theorem C04_body_entered_only_after_parse (W : DataWorld V) (hW : W.QuietW) (L : Legacy) (o : Opts) (F : FuncDecl V)
+    (body : List V → List (Nat × V) → M V) (args : List V) (kw : List (Nat × V)) (s : St)
+    (hnot : Ev.enterBody ∉ s.trace)
+    (hin : Ev.enterBody ∈ (syncCall W L o F body args kw s).2.trace) :
+    ∃ p s1, parseParams W L o F args kw s = (.ok p, s1) := by
+  have hq := (quiet_parseParams W hW L o F args kw).h s
+  unfold syncCall at hin
+  rw [bind_apply] at hin
+  rcases h : parseParams W L o F args kw s with ⟨r, s1⟩
+  rw [h] at hin hq
+  cases r with
+  | ok p => exact ⟨p, s1, rfl⟩
+  | raise e => simp only at hin hq; rw [hq] at hin; exact absurd hin hnot
+  | diverge => simp only at hin hq; rw [hq] at hin; exact absurd hin hnot
+
+/-- **attributes are set only after a clean parse** (trace statement for `Cls(**kw)` and for the running options of
+any other entry): an `attrsSet` event that was not there before implies that `BaseParser.__call__` returned a
+result and left nothing in `errors` / `tmp_errors` -/
+theorem C04_instance_only_after_clean_parse (W : DataWorld V) (hW : W.QuietW) (L : Legacy) (o : Opts) (P : ParserDecl V)
+    (postInit : M Unit) (kw : List (Nat × V)) (schema : Bool) (s : St)
+    (hnot : Ev.attrsSet ∉ s.trace)
+    (hin : Ev.attrsSet ∈ (classInit W L o P postInit kw schema s).2.trace) :
+    ∃ r s1, parserCall W L o P kw s = (.ok r, s1) ∧ s1.errors = [] ∧ s1.tmp = [] := by
+  have hq := (quiet_parserCall W hW L o P kw).h s
+  unfold classInit at hin
+  rw [bind_apply] at hin
+  rcases h : parserCall W L o P kw s with ⟨r, s1⟩
+  rw [h] at hin hq
+  cases r with
+  | ok a => exact ⟨a, s1, rfl, C04_parser_call_ok_clean W L o P kw s s1 a h⟩
+  | raise e => simp only at hin hq; rw [hq] at hin; exact absurd hin hnot
+  | diverge => simp only at hin hq; rw [hq] at hin; exact absurd hin hnot
+
+theorem quiet_keywordData (W : DataWorld V) (hW : W.QuietW) (L : Legacy) (o : Opts) (d : V) : Quiet (keywordData W L o d) := by
+  unfold keywordData
+  quiet_auto
+  all_goals quiet_close hW
+
+/-- the same for `Cls.__from__` / `init_dataclass` / `type_transform` / a nested field: an `attrsSet` event implies
+that reading the mapping succeeded and that the parse under the RUNNING options was clean -/
+theorem C04_instance_only_after_clean_parse_init_dataclass (W : DataWorld V) (hW : W.QuietW) (L : Legacy)
+    (declared : Opts) (given ctx : Option Opts) (P : ParserDecl V) (postInit : M Unit) (data : V) (schema : Bool) (s : St)
+    (hnot : Ev.attrsSet ∉ s.trace)
+    (hin : Ev.attrsSet ∈ (initDataclass W L declared given ctx P postInit data schema s).2.trace) :
+    ∃ kw s0 r s1, Ev.attrsSet ∉ s0.trace ∧
+      parserCall W L (runningOpts declared given ctx) P kw s0 = (.ok r, s1) ∧ s1.errors = [] ∧ s1.tmp = [] := by
+  have hk := quiet_keywordData W hW L (runningOpts declared given ctx)
+  unfold initDataclass at hin
+  simp only at hin
+  rw [bind_apply] at hin
+  have hq0 := (quiet_enterCheck W.toWorld 0).h s
+  rcases h0 : enterCheck W.toWorld 0 s with ⟨r0, s0⟩
+  rw [h0] at hin hq0
+  cases r0 with
+  | raise e => simp only at hin hq0; rw [hq0] at hin; exact absurd hin hnot
+  | diverge => simp only at hin hq0; rw [hq0] at hin; exact absurd hin hnot
+  | ok u =>
+    simp only at hin hq0
+    rw [bind_apply] at hin
+    have hq1 : Quiet (tryExcept (do
+        let d ← if W.isMapping data = true then pure data
+          else if (runningOpts declared given ctx).noExplicitCast = true then raise (builtinExc K.typeError)
+          else W.toDict data
+        keywordData W L (runningOpts declared given ctx) d)
+      (fun e => raise (wrap Site.initDataclass e))) := by
+      quiet_auto
+      all_goals first | exact hk _ | quiet_close hW
+    have hq1s := hq1.h s0
+    generalize hm : (tryExcept (do
+        let d ← if W.isMapping data = true then pure data
+          else if (runningOpts declared given ctx).noExplicitCast = true then raise (builtinExc K.typeError)
+          else W.toDict data
+        keywordData W L (runningOpts declared given ctx) d)
+      (fun e => raise (wrap Site.initDataclass e))) s0 = res at hin hq1s
+    obtain ⟨r1, s1⟩ := res
+    have hn1 : Ev.attrsSet ∉ s1.trace := by simp only at hq1s; rw [hq1s, hq0]; exact hnot
+    cases r1 with
+    | raise e => simp only at hin; exact absurd hin hn1
+    | diverge => simp only at hin; exact absurd hin hn1
+    | ok d =>
+      simp only at hin
+      by_cases c1 : (L.nonStrKeys && !(runningOpts declared given ctx).castKeywordStr && !W.strKeyed d) = true
+      · simp only [c1, if_true, raise] at hin; exact absurd hin hn1
+      · simp only [c1] at hin
+        by_cases c2 : (L.initNamedParams && W.reservedKey d) = true
+        · simp only [c2, if_true, raise] at hin; exact absurd hin hn1
+        · simp only [c2] at hin
+          obtain ⟨r, s2, h1, h2, h3⟩ :=
+            C04_instance_only_after_clean_parse W hW L _ P postInit (W.unpack d) schema s1 hn1 (by simpa using hin)
+          exact ⟨W.unpack d, s1, r, s2, hn1, h1, h2, h3⟩
+
 /-! ## the timestamp loops of `to_datetime` (transform.py:515-519, 550-557) -/
 
 /-- the model loop returns `y` exactly when Python's `while` stops at `y` after finitely many iterations -/
@@ -1006,6 +1285,123 @@ theorem C04_ts_normalize_terminates (x : Ts) : Term (tsNormalize false x) := by
 /-- negation for the code as it was: `datetime(float('inf'))` never returns -/
 theorem C04_legacy_ts_hang_witness : (tsNormalize true (.inf false) {}).1.diverges = true := by decide
 
+/-- the numeric branch of `to_datetime` as a whole (guard, loop, `utcfromtimestamp`) comes back on EVERY numeric input —
+finite, ±inf, NaN, an int or a Decimal beyond the float range — as soon as `utcfromtimestamp` does -/
+theorem C04_to_datetime_numeric_terminates (fromTs : Ts → M V) (hf : ∀ y, Term (fromTs y)) (x : TsIn) :
+    Term (toDatetimeNumeric false fromTs x) := by
+  unfold toDatetimeNumeric
+  apply term_bind
+  · cases x with
+    | num x => exact C04_ts_normalize_terminates x
+    | hugeInt => exact term_raise _
+    | hugeDec s n q => exact term_raise _
+  · exact hf
+
+/-- hence a converter that IS this branch discharges its own `Terminates.conv` obligation: the hypothesis of the
+`*_terminates` theorems is not left open for the datetime leaf on numeric input -/
+theorem C04_datetime_leaf_discharges_conv (W : World V) (tdt : Ty) (fromTs : Ts → M V) (cl : V → TsIn)
+    (hconv : ∀ v, W.conv tdt v = toDatetimeNumeric false fromTs (cl v)) (hf : ∀ y, Term (fromTs y)) :
+    ∀ v, Term (W.conv tdt v) := by
+  intro v; rw [hconv]; exact C04_to_datetime_numeric_terminates fromTs hf (cl v)
+
+/-- and before the guard it did not: `datetime(float('inf'))` as a converter call -/
+theorem C04_legacy_to_datetime_numeric_hangs (fromTs : Ts → M V) :
+    (toDatetimeNumeric true fromTs (.num (.inf false)) {}).1.diverges = true := rfl
+
+/-! ## composition: nested types terminate because their parts do (structural recursion on a finite type tree) -/
+
+/-- one nested declaration: the type id it is known by, and how it is parsed -/
+inductive Nested where
+  | rule (t : Ty) (R : RuleDecl)
+  | logical (t : Ty) (c : Comb) (args : List Ty)
+
+/-- the world in which one more type id is a nested constrained / logical type, parsed by the MODEL's own
+`ruleParse` / `logicalParse` over the world below it (this is what `transform_rule` does, rule.py:2096-2098) -/
+def nest (W : World V) (L : Legacy) (o : Opts) : Nested → World V
+  | .rule t₀ R => { W with
+      conv := fun t v => if t == t₀ then ruleParse W L o R v else W.conv t v
+      convAt := fun st t v => if t == t₀ then ruleParse W L o R v else W.convAt st t v }
+  | .logical t₀ c args => { W with
+      conv := fun t v => if t == t₀ then logicalParse W L o c args v else W.conv t v
+      convAt := fun st t v => if t == t₀ then logicalParse W L o c args v else W.convAt st t v }
+
+/-- a finite type tree, innermost declarations first: each may refer to the leaves and to the ones before it -/
+def nestAll (W : World V) (L : Legacy) (o : Opts) : List Nested → World V
+  | [] => W
+  | d :: ds => nestAll (nest W L o d) L o ds
+
+theorem nest_terminates (W : World V) (hW : W.Terminates) (L : Legacy) (o : Opts) (d : Nested) :
+    (nest W L o d).Terminates := by
+  cases d with
+  | rule t₀ R =>
+    refine ⟨?_, ?_, hW.construct, hW.insertKey, hW.validate, hW.readItems, hW.readPairs, hW.warn, hW.keyStr, hW.pre, hW.post⟩
+    · intro t v; simp only [nest]; split
+      · exact C04_rule_parse_terminates W hW L o R v
+      · exact hW.conv t v
+    · intro st t v; simp only [nest]; split
+      · exact C04_rule_parse_terminates W hW L o R v
+      · exact hW.convAt st t v
+  | logical t₀ c args =>
+    refine ⟨?_, ?_, hW.construct, hW.insertKey, hW.validate, hW.readItems, hW.readPairs, hW.warn, hW.keyStr, hW.pre, hW.post⟩
+    · intro t v; simp only [nest]; split
+      · exact C04_logical_terminates W hW L o c args v
+      · exact hW.conv t v
+    · intro st t v; simp only [nest]; split
+      · exact C04_logical_terminates W hW L o c args v
+      · exact hW.convAt st t v
+
+/-- **composition**: over leaf components that each come back, every finite tree of nested constrained and logical
+types comes back — by induction on the list of declarations, not by assuming it of the nested converters -/
+theorem C04_type_tree_terminates (W : World V) (hW : W.Terminates) (L : Legacy) (o : Opts) (ds : List Nested) :
+    (nestAll W L o ds).Terminates := by
+  induction ds generalizing W with
+  | nil => exact hW
+  | cons d ds ih => exact ih (nest W L o d) (nest_terminates W hW L o d)
+
+/-- in particular the entry point on top of the tree -/
+theorem C04_rule_parse_over_tree_terminates (W : World V) (hW : W.Terminates) (L : Legacy) (o : Opts)
+    (ds : List Nested) (R : RuleDecl) (v : V) : Term (ruleParse (nestAll W L o ds) L o R v) :=
+  C04_rule_parse_terminates _ (C04_type_tree_terminates W hW L o ds) L o R v
+
+/-- the same composition for the no-escape side: a nested constrained type is itself a component that lets only
+ParseError out, so the hypothesis-free `Safe` of its parent is not an assumption about it but a consequence -/
+theorem C04_nested_rule_is_safe_component (W : World V) (hw : ∀ s, Safe (W.warn s)) (o : Opts) (t₀ : Ty) (R : RuleDecl)
+    (hpre : ∀ v, Safe (W.pre v)) (hpost : ∀ v, Safe (W.post v)) (v : V) :
+    Safe ((nest W Legacy.none o (.rule t₀ R)).conv t₀ v) := by
+  simp only [nest, beq_self_eq_true, if_true]
+  exact C04_rule_parse_no_escape W hw o R v hpre hpost
+
+/-- the `while` of `posOnlyMissing` (func.py:666-670) is given `index` units of fuel: it never runs out — when
+`fillExcluded` stops, the loop condition is false or the loop has hit its `break` -/
+theorem fillExcluded_fuel_sufficient (F : FuncDecl V) (index : Nat) :
+    ∀ (fuel : Nat) (args : List V), index ≤ args.length + fuel →
+      let r := fillExcluded F index fuel args
+      ¬ (r.length < index ∧ F.excludeIndexes.contains r.length = true ∧ (F.excludeDefault r.length).isSome = true) := by
+  intro fuel
+  induction fuel with
+  | zero =>
+    intro args h
+    simp only [fillExcluded]
+    intro hc; omega
+  | succ k ih =>
+    intro args h
+    simp only [fillExcluded]
+    split
+    · rename_i hcond
+      split
+      · rename_i hnone
+        intro hc
+        simp [hnone] at hc
+      · rename_i d hsome
+        apply ih
+        simp only [List.length_append, List.length_singleton]; omega
+    · rename_i hcond
+      intro hc
+      apply hcond
+      have h2 := hc.2.1
+      simp only [Bool.and_eq_true, decide_eq_true_eq]
+      exact ⟨hc.1, h2⟩
+
 /-! ## the pre-fix sites do let other exceptions out (concrete worlds; the same worlds are safe when fixed) -/
 
 /-- a world over `V = Nat` in which type 1 never converts (TypeError) and type 2 raises KeyError -/
@@ -1016,9 +1412,10 @@ def wWorld : World Nat where
   depthExceeded := fun _ => false
   isNone := fun _ => false
   typeIs := fun _ _ => false
-  items := fun v => if v == 5 then [7] else []
+  readItems := fun v => pure (if v == 5 then [7] else [])
   indexable := fun _ => false           -- a set
-  pairs := fun v => if v == 5 then [(1, 2)] else []
+  readPairs := fun v => pure (if v == 5 then [(1, 2)] else [])
+  warn := fun _ => pure ()
   ofList := fun _ => 9
   ofTuple := fun _ => 9
   ofPairs := fun _ => 9
@@ -1038,6 +1435,7 @@ def wData : DataWorld Nat where
   readMapping := pure
   strKeyed := fun _ => false
   unpack := fun _ => []
+  reservedKey := fun _ => true
   discLookup := fun _ _ => raise (builtinExc K.typeError)        -- unhashable discriminator value
   noInput := fun _ _ => false
   neq := fun _ _ => raise (builtinExc 107)                       -- Decimal('sNaN') != x
@@ -1093,7 +1491,37 @@ theorem C04_legacy_discriminator_witness :
 
 /-- `Dict[int, int]({<key whose __str__ raises>: 1})`: the route f-string outside any try -/
 theorem C04_legacy_map_key_str_witness :
-    (ruleParse wWorld { mapKeyStr := true } {} { origin := some 0, args := .map 0 none } 5 {}).1.escapes = true := by
+    (ruleParse wWorld { mapKeyStr := true } {} { origin := some 0, args := .map 0 none } 5 {}).1.escapes = true
+    ∧ (ruleParse wWorld Legacy.none {} { origin := some 0, args := .map 0 none } 5 {}).1.escapes = false := by
+  decide
+
+/-- a list subclass whose own `__iter__` raises: the parser loop header sat outside any try -/
+theorem C04_legacy_raw_iteration_witness :
+    (ruleParse { wWorld with readItems := fun _ => raise (builtinExc 102) } { rawIteration := true } {}
+        { origin := some 0, args := .seq 0 } 5 {}).1.escapes = true
+    ∧ (ruleParse { wWorld with readItems := fun _ => raise (builtinExc 102) } Legacy.none {}
+        { origin := some 0, args := .seq 0 } 5 {}).1.escapes = false := by
+  decide
+
+/-- `S.__from__({'_obj_self': 1})`: the key collided with a parameter of the generated `__init__` -/
+theorem C04_legacy_init_named_params_witness :
+    (initDataclass { wData with strKeyed := fun _ => true } { initNamedParams := true } {} none none {} (pure ()) 5 false {}).1.escapes = true
+    ∧ (initDataclass { wData with strKeyed := fun _ => true } Legacy.none {} none none {} (pure ()) 5 false {}).1.escapes = false := by
+  decide
+
+/-- KNOWN (not repaired): `collect_waring` calls `warnings.warn`; under a warnings filter that turns warnings into
+errors the exclude / preserve policies raise the Warning from inside the handler.  The hypothesis `hw` of every
+no-escape theorem is exactly the negation of this predicate. -/
+def KnownDefect.warningsAsErrors (W : World V) : Prop := ¬ ∀ s, Safe (W.warn s)
+
+theorem C04_warnings_as_errors_witness :
+    KnownDefect.warningsAsErrors { wWorld with warn := fun _ => raise (builtinExc 120) }
+    ∧ (ruleParse { wWorld with warn := fun _ => raise (builtinExc 120) } Legacy.none { invalidItems := .exclude }
+        { origin := some 0, args := .seq 1 } 5 {}).1.escapes = true := by
+  refine ⟨?_, by decide⟩
+  intro h
+  have := (h 0).h {}
+  revert this
   decide
 
 /-- `Cls.__from__({1: 'a'})`: a key that is not a str reached `cls.__init__(inst, **data)` -/
@@ -1136,9 +1564,27 @@ theorem C04_unsized_consumed_only_by_mapping_targets (f : Flags) (hf : f.legacyD
 `_attempt_from` (non-empty, casts allowed, and a single item under no_data_loss) -/
 theorem C04_scalar_consumes_sized_iff (f : Flags) (hf : f.legacyDatetime = false) (s : Scalar) (n : Nat)
     (h : consumes f (.scalar s) (.sized n) = true) :
-    f.noExplicitCast = false ∧ n ≠ 0 ∧ (f.noDataLoss = true → n ≤ 1) := by
-  cases s <;> simp [consumes, attemptFrom, hf] at h <;>
-    exact ⟨h.1.1, h.1.2, fun hd => by have := h.2; simp [hd] at this; omega⟩
+    f.noExplicitCast = false ∧ n ≠ 0 ∧ (f.legacyAttemptFrom = true ∨ n = 1) := by
+  cases s <;> simp [consumes, attemptFrom, hf] at h <;> exact ⟨h.1.1.1, h.1.1.2, h.2⟩
+
+/-- **a scalar target never walks through more than one item of its input** (with `next(iter(value))`): whatever the
+input is — sized, lazy, iterable — if it is consumed at all it had exactly one item -/
+theorem C04_scalar_pulls_at_most_one (f : Flags) (hf : f.legacyDatetime = false) (ha : f.legacyAttemptFrom = false)
+    (s : Scalar) (k : InKind) (h : consumes f (.scalar s) k = true) : k = .sized 1 := by
+  cases k with
+  | sized n =>
+    have := (C04_scalar_consumes_sized_iff f hf s n h).2.2
+    simp [ha] at this; rw [this]
+  | lazy => rw [C04_scalar_never_consumes_unsized f hf s _ rfl] at h; cases h
+  | iterable => rw [C04_scalar_never_consumes_unsized f hf s _ rfl] at h; cases h
+  | getitem => rw [C04_scalar_never_consumes_unsized f hf s _ rfl] at h; cases h
+  | text => rw [C04_scalar_never_consumes_unsized f hf s _ rfl] at h; cases h
+  | scalar => rw [C04_scalar_never_consumes_unsized f hf s _ rfl] at h; cases h
+
+/-- negation for `list(value)[0]`: a 40-item list was walked through to take its first item -/
+theorem C04_legacy_attempt_from_walks_witness :
+    consumes { legacyAttemptFrom := true } (.scalar .int) (.sized 40) = true
+    ∧ consumes {} (.scalar .int) (.sized 40) = false := by decide
 
 /-- negation for the code before fixes/C04-datetime-iterates-input: `"GMT" in data` walks through any iterable -/
 theorem C04_legacy_datetime_walks_lazy_witness :
@@ -1155,11 +1601,25 @@ def idWorld : World Nat :=
 
 example : idWorld.Terminates :=
   ⟨fun _ _ => term_pure _, fun _ _ _ => term_pure _, fun _ _ => term_pure _, fun _ => term_pure _,
-   fun _ _ => term_pure _, fun _ => term_pure _, fun _ => term_pure _, fun _ => term_pure _⟩
+   fun _ _ => term_pure _, fun _ => term_pure _, fun _ => term_pure _, fun _ => term_pure _, fun _ => term_pure _,
+   fun _ => term_pure _, fun _ => term_pure _⟩
 
 example : (∀ v, Safe (idWorld.pre v)) ∧ (∀ v, Safe (idWorld.post v)) :=
   ⟨fun _ => safe_pure _, fun _ => safe_pure _⟩
 
+
+/-- `DataWorld.Terminates` is satisfiable by a world whose components RAISE (not only by the all-`pure` one) -/
+example : (wData).Terminates := by
+  refine ⟨⟨?_, ?_, ?_, ?_, ?_, ?_, ?_, ?_, ?_, ?_, ?_⟩, ?_, ?_, ?_, ?_, ?_⟩ <;> intros <;>
+    first
+    | exact term_pure _
+    | exact term_raise _
+    | (simp only [wData, wWorld]; split <;> first | exact term_raise _ | exact term_pure _ | (split <;> first | exact term_raise _ | exact term_pure _))
+
+/-- the hypothesis `hbody` of `C04_call_no_escape` is satisfiable: a body that returns, and one that raises ParseError -/
+example : (∀ (a : List Nat) (k : List (Nat × Nat)), Safe ((fun _ _ => pure 0 : List Nat → List (Nat × Nat) → M Nat) a k))
+    ∧ (∀ (a : List Nat) (k : List (Nat × Nat)), Safe ((fun _ _ => raise (mk K.parse 0) : List Nat → List (Nat × Nat) → M Nat) a k)) :=
+  ⟨fun _ _ => safe_pure _, fun _ _ => safe_raise rfl⟩
 
 /-- a successful parse exists (the theorems are not about a model that always fails) -/
 example : (ruleParse idWorld Legacy.none {} { origin := some 0, args := .seq 0 } 5 {}).1.isOk = true := by decide
